@@ -843,7 +843,8 @@ def run(tier):
                     'with fractional reference pixels} (quick: one aligned and one rotated frame drawn by the seed, thorough: all five, three scenes each), source sizes 40-64 x 30-64, three output sample spacings '
                     '(default, coarser, anisotropic), SIDD versions 1/2/3, split dimension 0/1, block thickness {2, 3, 5, 8, 17, ..} ortho lines (block_size below the '
                     "0.25 MB floor is passed through a FullResolutionFetcher subclass that only drops the floor), one block, source sub-rectangle as bounds, 8 bit "
-                    'product through the remap, pad value {0, 500.5}; plus one 170-200 pixel scene split by the unmodified public API at block_size 0.25. Every product '
+                    'product through the remap, pad value {0, 500.5}; plus one 170-200 pixel scene split by the unmodified public API at block_size 0.25; plus a two-image '
+                    'reader (AggregateComplexReader over two scenes of different size and code pitch, the second fitting inside the first): products of helpers built for index 1 and 0. Every product '
                     'pixel is classified inside / rim / outside by its source coordinate; coordinates within eps (~2.5e-3 px, the code iterates to 1e-3 m) of a decision '
                     'boundary are undecided. Correspondence: plane maps on random integer / fractional / far ortho coordinates; index function on integer, half, dyadic, '
                     'near-integer, first / last line, outside, non-finite, uniform coordinates; NearestNeighborMethod on 2-8 x 2-8 outputs from windows of 0-10 lines; '
